@@ -1,9 +1,12 @@
 #!/bin/sh
-# Regenerates harness/go.mod from /repo/go.mod (go/toolchain lines and replace
-# directives are copied; the repository itself is replaced by the working tree).
+# usage: gomod.sh <outdir>
+# Writes <outdir>/go.mod and <outdir>/go.sum for `go build -modfile=<outdir>/go.mod`:
+# go/toolchain lines and every replace directive are copied from $VERIF_REPO/go.mod and the
+# repository itself is replaced by the working tree at $VERIF_REPO (default /repo).
 set -e
 REPO="${VERIF_REPO:-/repo}"
-cd "$(dirname "$0")"
+OUT="$1"
+mkdir -p "$OUT"
 {
   echo "module verifharness"
   echo
@@ -13,5 +16,5 @@ cd "$(dirname "$0")"
   echo
   echo "replace github.com/flant/shell-operator => $REPO"
   grep -E '^replace ' "$REPO/go.mod" || true
-} > go.mod
-cp "$REPO/go.sum" go.sum
+} > "$OUT/go.mod"
+cp "$REPO/go.sum" "$OUT/go.sum"
